@@ -112,6 +112,22 @@ type sibling struct {
 	err    error
 }
 
+// failingWriter accepts k Write calls, then fails with code 9.
+type failingWriter struct {
+	left int
+	buf  bytes.Buffer
+}
+
+const writerErrCode = 9
+
+func (w *failingWriter) Write(p []byte) (int, error) {
+	if w.left == 0 {
+		return 0, codeErr(writerErrCode)
+	}
+	w.left--
+	return w.buf.Write(p)
+}
+
 type handler struct{ done atomic.Int32 }
 
 func (h *handler) OnError(err error) (buffer.Buffer, error) {
@@ -140,6 +156,7 @@ type progRun struct {
 	sizeOK      bool
 	data        []byte
 	dataOK      bool
+	written     []byte
 	maxChunk    int
 	atTerm      []bool
 	atReturn    []bool
@@ -368,6 +385,18 @@ func (p *progRun) call(b buffer.Buffer) error {
 		var w bytes.Buffer
 		err := b.IntoWriter(&w)
 		whole(w.Bytes(), err)
+	case "iwf":
+		k, e1 := num(1)
+		if e1 != nil {
+			return e1
+		}
+		w := &failingWriter{left: k}
+		err := b.IntoWriter(w)
+		p.res = outcome(w.buf.Bytes(), err)
+		p.written = append([]byte{}, w.buf.Bytes()...)
+		if err == nil {
+			p.data, p.dataOK = w.buf.Bytes(), true
+		}
 	case "ra":
 		off, e1 := num(1)
 		l, e2 := num(2)
